@@ -67,6 +67,9 @@ pub fn authdata_decode(arg: &str) -> (bool, String) {
             if a.attested_credential_data.is_some() != at || a.extensions.is_some() != ed {
                 return (true, format!("flags {fb:#04x}: attested section {}, extensions {}", a.attested_credential_data.is_some(), a.extensions.is_some()));
             }
+            if let Some(ext) = &a.extensions {
+                if !ext.is_map() { return (true, format!("flags {fb:#04x} announce the CBOR extension map; what follows is not a map ({ext:?}), accepted")); }
+            }
             if let Some(acd) = &a.attested_credential_data {
                 if n < 55 {
                     return (true, "attested section accepted from fewer than 18 bytes".into());
@@ -130,4 +133,37 @@ pub fn authdata_built(arg: &str) -> (bool, String) {
             (!same, if same { "round trip equal".into() } else { format!("decoded value differs: flags {:#04x} vs {:#04x}", x.flags.bits(), d.flags.bits()) })
         }
     }
+}
+
+/// C06: the debug rendering of a stored passkey holds neither the private scalar nor the PRF secrets, in raw decimal-list, hex,
+/// base64 or base64url form.  arg is ignored.  Two key layouts: the usual parameter order and one with the private scalar first.
+pub fn passkey_debug(_arg: &str) -> (bool, String) {
+    use coset::{iana, CoseKeyBuilder, Label};
+    use passkey_types::{CredentialExtensions, Passkey, StoredHmacSecret};
+    let d: Vec<u8> = (0..32u8).map(|i| 0xa0 ^ i.wrapping_mul(7)).collect();
+    let s1: Vec<u8> = (0..32u8).map(|i| 0x51 ^ i.wrapping_mul(11)).collect();
+    let s2: Vec<u8> = (0..32u8).map(|i| 0x3c ^ i.wrapping_mul(13)).collect();
+    let forms = |b: &[u8]| -> Vec<String> {
+        let hex: String = b.iter().map(|x| format!("{x:02x}")).collect();
+        let dec = b.iter().map(|x| x.to_string()).collect::<Vec<_>>().join(", ");
+        let b64 = passkey_types::encoding::base64(b);
+        let b64u = passkey_types::encoding::base64url(b);
+        vec![hex.clone(), hex.to_uppercase(), dec, b64, b64u]
+    };
+    for d_first in [false, true] {
+        let mut key = CoseKeyBuilder::new_ec2_priv_key(iana::EllipticCurve::P_256, vec![1; 32], vec![2; 32], d.clone()).algorithm(iana::Algorithm::ES256).build();
+        if d_first {
+            let dl = Label::Int(iana::Ec2KeyParameter::D as i64);
+            if let Some(p) = key.params.iter().position(|(l, _)| *l == dl) { let e = key.params.remove(p); key.params.insert(0, e); }
+        }
+        let pk = Passkey { key, credential_id: vec![9; 16].into(), rp_id: "example.com".into(), user_handle: Some(vec![7; 8].into()), counter: Some(3),
+            extensions: CredentialExtensions { hmac_secret: Some(StoredHmacSecret { cred_with_uv: s1.clone(), cred_without_uv: Some(s2.clone()) }) } };
+        let text = format!("{pk:?} {pk:#?}");
+        for (what, sec) in [("the private scalar", &d), ("the verification-gated PRF secret", &s1), ("the non-gated PRF secret", &s2)] {
+            for f in forms(sec) {
+                if text.contains(&f) { return (true, format!("the debug rendering of a stored passkey contains {what} ({}): {}", if d_first { "COSE key with d as first parameter" } else { "usual parameter order" }, &text[..text.len().min(160)])); }
+            }
+        }
+    }
+    (false, "debug rendering free of the secrets in hex, decimal-list, base64 and base64url form".into())
 }
